@@ -156,6 +156,14 @@ def inst_sizes(cx, iid):
         ret = [show(ff.call_expr(t)) for l, t in ff.calls("Vec::into_boxed_slice")]
         if len(tr) != 1 or not re.fullmatch(r"Vec::truncate\((var\d+),arg1\.total_size\)", tr[0]) or len(ret) != 1:
             inst.violation(ff.path, "finalize", "finalize does not return exactly the first total_size bytes of the buffer: %s" % tr)
+        else:
+            # ... on every path: a truncation that is skipped for some sizes delivers the packet with the buffer's padding
+            tl = [l for l, t in ff.calls("Vec::truncate")]
+            rl = [l for l, t in ff.calls("Vec::into_boxed_slice")]
+            if ff.reach_exit_avoiding(Loc(0, -1), tl) is not None:
+                inst.violation(ff.path, "finalize truncation skipped", "finalize can return the reassembly buffer without truncating it to total_size: the packet is delivered with trailing padding")
+            else:
+                cx.preceded_by(inst, ff, [(rl[0], "into_boxed_slice")], tl, "buffer boxed before truncation", "Vec::truncate(data, total_size)")
         ta = R.body("AssemblyWindow::try_add")
         n_ae = 0
         for loc, t in ta.calls("ActiveEntry::new"):
@@ -256,6 +264,13 @@ def run(cx):
         if not ws:
             inst.violation(ta.path, "Active-arm write", "the Active-arm FragmentBuffer::write was not found (anchor)")
     inst_fragment_flags(cx, "C04.f")
+    # a multi-fragment packet whose rounded allocation is charged but only its payload length refunded shrinks the
+    # sender's budget until the next packet of that size is never emitted; and a Reliable multi-fragment packet that
+    # the receive window steps over while it is incomplete is never reassembled
+    from props.C06 import inst_sender_alloc_pair
+    inst_sender_alloc_pair(cx, "C04.s")
+    from props.C02 import inst_delivery_guards
+    inst_delivery_guards(cx, "C04.t")
     with cx.instance("C04.e", "T1 GUARD", "fragment ids and sizes are validated before reassembly (datagram_is_valid clauses, try_add under it)", floor=3) as inst:
         from props.C03 import check_validators
         inst.site("<shared>", None, "C03.V.datagram")
